@@ -346,42 +346,25 @@ theorem resolve_labels_open_stop (sp : Span) (a b : List Char) (la : Label) (ka 
 example : resolveGroupSem (listSpan [.int 2000, .int 2001, .int 2002]) (some [':', '`', '2', '0', '0', '1', '`'])
     = .ok (.slice .empty (.val 2) []) := rfl
 
-/-- The property's FULL statement about label slices: for EVERY span, `` [`a`:`b`] `` selects up to and
-    including `pos b`, as label indexing does. -/
-def LabelStopInclusive : Prop :=
-  ∀ (sp : Span) (a b : List Char) (la lb : Label) (ka kb : Int) (pa pb : Bool),
-    (∀ c ∈ a, c ≠ ':') → (∀ c ∈ b, c ≠ ':') →
-    (strip a).contains '`' = true → (strip b).contains '`' = true →
-    denotes sp (periodText (strip a)) = some la → denotes sp (periodText (strip b)) = some lb →
-    sp.locate la = .pos ka pa → sp.locate lb = .pos kb pb →
-    resolveGroupSem sp (some (a ++ ':' :: b)) = .ok (.slice (.val ka) (.val (kb + 1)) [])
+/-- The guard of `resolve_labels_spec` (the locator returns Python ints) holds for the two span models that the
+    code itself implements: list-like spans (`.index`) and NumPy-array spans (fallback locator, `int(...)`).
+    For pandas spans it is a fact about `get_loc` (an input, recorded by the correspondence check). -/
+theorem builtin_spans_python_int (xs : List Label) (l : Label) (k : Int) (py : Bool) :
+    ((listSpan xs).locate l = .pos k py → py = true) ∧ ((numpySpan xs).locate l = .pos k py → py = true) := by
+  constructor
+  · intro h
+    simp only [listSpan] at h
+    cases hf : firstIndex l xs <;> simp [hf, locOfIndex] at h
+    exact h.2
+  · intro h
+    simp only [numpySpan] at h
+    split at h
+    · cases hf : firstIndex l xs <;> simp [hf, locOfIndex] at h
+      exact h.2
+    · exact absurd h (by simp)
 
-/-- FALSE of the code on NumPy-array spans (finding `eval-numpy-span-label-stop`): the fallback locator returns
-    a NumPy integer, `isinstance(stop, int)` is False, and the stop stays exclusive.  `resolve_labels_spec` is the
-    `_partial` theorem (guard: the locator returns Python ints). -/
-theorem label_stop_inclusive_false_at_witness : ¬ LabelStopInclusive := by
-  intro h
-  have h1 := h (numpySpan [.int 2000, .int 2001, .int 2002]) ['`', '2', '0', '0', '1', '`'] ['`', '2', '0', '0', '2', '`']
-    (.int 2001) (.int 2002) 1 2 false false (by decide) (by decide) (by decide) (by decide) rfl rfl rfl rfl
-  have h2 : resolveGroupSem (numpySpan [.int 2000, .int 2001, .int 2002])
-      (some (['`', '2', '0', '0', '1', '`'] ++ ':' :: ['`', '2', '0', '0', '2', '`'])) =
-      .ok (.slice (.val 1) (.val 2) []) := rfl
-  rw [h2] at h1
-  injection h1 with h1
-  injection h1 with _ h1 _
-  injection h1 with h1
-  exact absurd h1 (by decide)
-
-/-- The `_partial` form of `LabelStopInclusive`: the same statement under the guard `pa = pb = true`. -/
-theorem resolve_labels_spec_partial (sp : Span) (a b : List Char) (la lb : Label) (ka kb : Int) (pa pb : Bool)
-    (hpy : pa = true ∧ pb = true)
-    (hca : ∀ c ∈ a, c ≠ ':') (hcb : ∀ c ∈ b, c ≠ ':')
-    (ha : (strip a).contains '`' = true) (hb : (strip b).contains '`' = true)
-    (hda : denotes sp (periodText (strip a)) = some la) (hdb : denotes sp (periodText (strip b)) = some lb)
-    (hla : sp.locate la = .pos ka pa) (hlb : sp.locate lb = .pos kb pb) :
-    resolveGroupSem sp (some (a ++ ':' :: b)) = .ok (.slice (.val ka) (.val (kb + 1)) []) := by
-  obtain ⟨rfl, rfl⟩ := hpy
-  exact (resolve_labels_spec sp a b la lb ka kb hca hcb ha hb hda hdb hla hlb).1
+example : resolveGroupSem (numpySpan [.int 2000, .int 2001, .int 2002])
+    (some ['`', '2', '0', '0', '1', '`', ':', '`', '2', '0', '0', '2', '`']) = .ok (.slice (.val 1) (.val 3) []) := rfl
 
 /-- A label that is neither a string label of the span nor spells an integer label of it: KeyError, never
     another period. -/
